@@ -33,6 +33,7 @@ from ..extractors import e1_memory_logger
 PROP = "C16"
 LEAN_TARGETS = ["Eliot.Conc.MemLog", "Eliot.Conc.FileLines", "Eliot.Generated.MemLog", "Eliot.Properties.C16"]
 AUDIT = "Eliot/Audit/C16.lean"
+SKELETON_TARGETS = {"Eliot.ShapesSkel.C16_shapes (E16: the lock decorator `exclusively` as a statement list)": ("Eliot.Properties.ShapesSkel", "Eliot/Audit/ShapesSkel.lean", ["Eliot.ShapesSkel.exclusivelyBody_shape"])}
 THEOREMS = ["Eliot.C16.memlog_mutex", "Eliot.C16.memlog_linearizable", "Eliot.C16.pairs_consistent",
             "Eliot.C16.spec_tracebacks_filter", "Eliot.C16.lines_never_torn"]
 GENERATED_OBLIGATIONS = ["AllLocked Generated.memoryLogger ∧ WritePairs Generated.memoryLogger",
